@@ -84,13 +84,15 @@ def vf : P String := do
       let best := envV m.S top b
       let vd := vd.failIf (!(closeQ tol mine best) && mine < best) s!"Policy first_action_not_argmax got={qstr mine} max={qstr best}"
       if shapeOK then
-        let ex := execReturn m v H q.id b
+        let ex := execReturn (cutModel m) v H q.id b
         vd.failIf (!(closeQ tol ex mine)) s!"{comp} exec_return_mismatch exec={qstr ex} promised={qstr mine}"
       else vd) vd
   -- statistics only: exact agreement, model's own argmax, greedy w.r.t. the look-ahead on the previous envelope
   let exact := match v with | [] => false | v0 :: rest => consistentFrom eqQ m v0 rest
+  let zb := (List.range m.A).all (fun a => (List.range m.O).all (fun o => possible m a o ||
+              (List.range m.S).all (fun s => decide (m.Ob a s o = 0))))
   let sameArg := bqs.all (fun q => (sampleActionB m v (bfun q.b) H) == (q.a, q.id))
-  let vd := { vd with tag := vd.tag ++ (if exact then " exact" else " rounded") ++ (if sameArg then "" else " tie")
+  let vd := { vd with tag := vd.tag ++ (if exact then " exact" else " rounded") ++ (if sameArg then "" else " tie") ++ (if zb then "" else " subthreshold")
                         ++ (if H == 0 then " trivial" else "") }
   return vd.render
 
